@@ -119,9 +119,9 @@ def run(ctx):
                'tolerance 1e-9 relative + 1e-12 of sum|R| (trapezium sums in float64)', 'strictly monotone grids (duplicate frequencies outside the quantifier)')
     ctx.require_events('Filter.rebin:post', 'Filter.normalize:post', 'file:checked', 'flat-spectrum', 'filter:read-from-text')
     ctx.require_regimes('filter:ascending-nu', 'filter:descending-nu', 'grid:ascending-nu', 'grid:descending-nu', 'grid:coarser', 'grid:finer',
-                        'overlap:partial-lo', 'overlap:partial-hi', 'overlap:contains', 'overlap:contained', 'edges:coincide', 'pkg:v1', 'pkg:v2')
+                        'overlap:partial-lo', 'overlap:partial-hi', 'overlap:contains', 'overlap:contained', 'edges:coincide', 'pkg:v1', 'pkg:v2', 'pkg:mixed-grids')
     d = ctx.newdir('c06')
-    n_reb = 500 if ctx.quick else 4000
+    n_reb = 500 if ctx.quick else 15000
     for it in range(n_reb):
         # filter
         nf = int(rng.choice([2, 3, 4, 8, 20, 60]))
@@ -182,7 +182,7 @@ def run(ctx):
                  sample={'filter_wav_um': fw, 'response': resp, 'grid_nu_hz': g, 'kind': kind} if it < 2 else None)
 
     # ---- whole packages through convolve_model_dir -------------------------------------
-    n_pkg = 6 if ctx.quick else 40
+    n_pkg = 6 if ctx.quick else 100
     for ip in range(n_pkg):
         style = 'v1' if ip % 2 == 0 else 'v2'
         ctx.regime('pkg:' + style)
@@ -242,6 +242,66 @@ def run(ctx):
                                'filter_response': flat.response})
         except Exception as exc:
             ctx.violation('convolve-raised', 'convolve_model_dir raised: %r' % (exc,), wit0)
+        ctx.rmdir(pd)
+    mixed_grid_packages(ctx, rng, convolve_model_dir)
+
+
+def mixed_grid_packages(ctx, rng, convolve_model_dir):
+    """per-file packages whose SED files are tabulated on *different* frequency grids (same apertures): grids of equal
+    length sharing both end points but sampled differently inside, grids of different length, and the same grids in
+    the other storage order; consecutive files (sorted order) alternate between grids so that the filters must be
+    re-binned from one SED to the next"""
+    for ip in range(3 if ctx.quick else 25):
+        n_w = int(rng.choice([6, 12, 30]))
+        lo, hi = float(gen.loguniform(rng, 0.05, 1.0)), float(gen.loguniform(rng, 50.0, 2000.0))
+        grids = []
+        for g in range(int(rng.integers(2, 4))):
+            if g < 2 or rng.random() < 0.5:      # same length, same end points, different interior sampling
+                inner = np.sort(gen.loguniform(rng, lo * 1.01, hi * 0.99, n_w - 2))
+                grids.append(np.concatenate([[lo], inner, [hi]]))
+            else:                                 # a different length
+                grids.append(np.sort(gen.loguniform(rng, lo, hi, n_w + int(rng.integers(1, 6)))))
+        n_ap = int(rng.integers(1, 3))
+        aps = gen.aperture_table(rng, n_ap) if n_ap > 1 else None
+        n_m = int(rng.integers(len(grids) + 1, 9))
+        names = ['mix_%02d' % i for i in range(n_m)]
+        which = [i % len(grids) for i in range(n_m)]          # alternate in sorted file order
+        pd = ctx.newdir('mx')
+        os.makedirs(os.path.join(pd, 'seds'))
+        pkg.write_conf(pd, aperture_dependent=(n_ap > 1))
+        pkg.write_parameters(pd, [names[i] for i in rng.permutation(n_m)], {})
+        truths = []
+        for i, nm in enumerate(names):
+            w = grids[which[i]]
+            fl = 10.0 ** rng.uniform(-1, 2, (n_ap, len(w))) * (np.arange(1, n_ap + 1)[:, None])
+            er = fl * rng.uniform(0.01, 0.2, fl.shape)
+            t = pkg.Truth([nm], w, fl[None], er[None], apertures=aps)
+            truths.append(t)
+            pkg.write_sed_file(pkg.sed_path(pd, nm), nm, t.wav, t.nu, aps, fl, er, descending_wav=bool(rng.random() < 0.5), fmt='D')
+        filters = []
+        for jf in range(2):
+            fw, resp, central, kind = convcheck.make_filter_arrays(rng, grids[0], kind=str(rng.choice(['inside', 'partial-lo', 'contains'])))
+            filters.append(convcheck.build_filter('X%d' % jf, fw, resp, central, descending_nu=bool(rng.random() < 0.5)))
+        wit0 = {'n_models': n_m, 'n_ap': n_ap, 'grids': [list(g) for g in grids], 'grid_of_model': which}
+        try:
+            convolve_model_dir(pd, filters)
+        except Exception as exc:
+            ctx.violation('convolve-raised:mixed-grids', 'convolve_model_dir raised on SEDs with different frequency grids: %r' % (exc,), wit0)
+            ctx.rmdir(pd)
+            continue
+        ctx.regime('pkg:mixed-grids')
+        for flt in filters:
+            got = convcheck.read_convolved_plain(os.path.join(pd, 'convolved', flt.name + '.fits'))
+            for r, nm in enumerate(got['names']):
+                t = truths[names.index(nm)]
+                ref_f, ref_e, R = convcheck.reference_convolution(t, flt)
+                ctx.event('file:checked')
+                tol = 1e-9 * np.abs(ref_f[0]) + 1e-12 * np.sum(np.abs(t.flux[0][:, ::-1] * R), axis=1)
+                if np.any(np.abs(got['flux'][r] - ref_f[0]) > tol) or np.any(np.abs(got['err'][r] - ref_e[0]) > 1e-9 * np.abs(ref_e[0]) + 1e-300):
+                    ctx.violation('file:flux-not-sum-F-R:mixed-grids', "an SED's convolved flux/error was not computed with the response binned onto that SED's own frequency grid",
+                                  dict(wit0, filter=flt.name, model=nm, got=got['flux'][r], expected=ref_f[0]))
+                    break
+            ctx.case(('mixed', ip, flt.name, ctx.shard), nontrivial=True)
         ctx.rmdir(pd)
 
 
